@@ -327,8 +327,8 @@ impl Check for PoolToggles {
             a.flags()
         );
         if c.funded {
-            a.fund().map_err(|e| Fail::new(format!("funding failed: {e}")))?;
-            b.fund().map_err(|e| Fail::new(format!("funding failed: {e}")))?;
+            a.fund().map_err(|e| Fail::new(format!("funding a freshly created pool / vault (everything enabled) failed: {e}")))?;
+            b.fund().map_err(|e| Fail::new(format!("funding a freshly created pool / vault (everything enabled) failed: {e}")))?;
         }
         a.set_flags_with(c.flags, c.companions)
             .map_err(|e| Fail::new(format!("setting the switches through the factory (companion fields {:#05b}) failed: {e}", c.companions)))?;
@@ -622,8 +622,8 @@ impl Check for VaultToggles {
             for w in [&mut a, &mut b] {
                 let u0 = w.user(0);
                 let u1 = w.user(1);
-                w.deposit(&u0, 1_000_000_000).map_err(|e| Fail::new(format!("funding failed: {e}")))?;
-                w.deposit(&u1, 5_000_000).map_err(|e| Fail::new(format!("funding failed: {e}")))?;
+                w.deposit(&u0, 1_000_000_000).map_err(|e| Fail::new(format!("funding a freshly created pool / vault (everything enabled) failed: {e}")))?;
+                w.deposit(&u1, 5_000_000).map_err(|e| Fail::new(format!("funding a freshly created pool / vault (everything enabled) failed: {e}")))?;
             }
         }
         let mut model = [true, true, true];
